@@ -2,6 +2,7 @@ package rules
 
 import (
 	"fmt"
+	"go/constant"
 	"go/token"
 	"go/types"
 	"os"
@@ -321,12 +322,22 @@ func (e *Env) graphRoles() *GraphRoles {
 				continue
 			}
 			for _, l := range e.DCSBlock(b) {
-				if l.Kind != "val" || !l.Pol {
+				// the positive answer: `hasCycle()`, or a witness that is not nil (`findCycle() != nil`)
+				var subj ssa.Value
+				switch {
+				case l.Kind == "val" && l.Pol:
+					subj = l.V
+				case l.Kind == "cmp" && l.Op == token.NEQ && ir.IsNilConst(l.Y):
+					subj = l.X
+				default:
 					continue
 				}
-				if cc, isC := ir.Resolve(l.V).(*ssa.Call); isC && cc.Call.StaticCallee() != nil && rootFn(cc.Call.StaticCallee()).Package() == sp {
+				if cc, isC := ir.Resolve(subj).(*ssa.Call); isC && cc.Call.StaticCallee() != nil && rootFn(cc.Call.StaticCallee()).Package() == sp {
 					h := cc.Call.StaticCallee()
-					if h.Signature.Results().Len() != 1 || h.Signature.Results().At(0).Type().String() != "bool" {
+					if h.Signature.Results().Len() != 1 {
+						continue
+					}
+					if rtp := h.Signature.Results().At(0).Type(); l.Kind == "val" && rtp.String() != "bool" || l.Kind == "cmp" && (!nilable(rtp) || ir.IsErrorType(rtp)) {
 						continue
 					}
 					g.HasCycle = h
@@ -504,7 +515,7 @@ func (e *Env) helperOf(v ssa.Value) (*ssa.Call, int, bool) {
 // return reached in several ways, each way) and keeps those consistent with the
 // literals of lits that speak about c's results.
 func (e *Env) splitOnCall(c *ssa.Call, lits []ir.NLit) ([]callAlt, bool) {
-	h := c.Call.StaticCallee()
+	h := e.calleeFn(&c.Call)
 	ff := e.Facts(h)
 	var rest, about []ir.NLit
 	aboutIdx := []int{}
@@ -651,9 +662,18 @@ func (e *Env) definitelyNonNil(v ssa.Value, depth int) bool {
 		return true
 	case *ssa.MakeInterface:
 		return true
+	case *ssa.Slice:
+		return depth <= 2 && e.definitelyNonNil(x.X, depth+1)
 	case *ssa.Call:
 		if ir.IsCallTo(&x.Call, "fmt.Errorf", "errors.New") {
 			return true
+		}
+		// a non-empty append
+		if c, ok := isAppend(x); ok && len(c.Call.Args) == 2 {
+			if _, isSl := c.Call.Args[1].(*ssa.Slice); isSl && len(variadicElems(c.Call.Args[1])) > 0 {
+				return true
+			}
+			return depth <= 2 && e.definitelyNonNil(c.Call.Args[0], depth+1)
 		}
 		g := x.Call.StaticCallee()
 		if g == nil || !e.P.Funcs[g] || g.Blocks == nil || depth > 2 || g.Signature.Results().Len() != 1 {
@@ -723,9 +743,13 @@ func evalCmp(op token.Token, x, y ssa.Value) (decided, val bool) {
 // Bounded.
 func (e *Env) expandHelperCalls(lits []ir.NLit, depth int) [][]ir.NLit {
 	var out [][]ir.NLit
-	for _, a := range e.expandHelperCallsX(lits, depth, map[*ssa.Call]bool{}) {
-		// and the lookups in constant tables (`v, ok := table[k]`)
-		out = append(out, e.expandTableLits(a)...)
+	// a φ compared with a constant says which branch assigned it: its edge's conditions
+	// take the place of the comparison (and may mention helpers themselves)
+	for _, p := range e.expandPhiConst(lits, 0) {
+		for _, a := range e.expandHelperCallsX(p, depth, map[*ssa.Call]bool{}) {
+			// and the lookups in constant tables (`v, ok := table[k]`)
+			out = append(out, e.expandTableLits(a)...)
+		}
 	}
 	return out
 }
@@ -908,7 +932,7 @@ func (e *Env) expandBoundX(lits []BLit, depth int, done map[*ssa.Call]bool) [][]
 		if !ok || done[c] {
 			continue
 		}
-		h := c.Call.StaticCallee()
+		h := e.calleeFn(&c.Call)
 		if !e.verdictResult(h, idx) {
 			continue
 		}
@@ -994,13 +1018,13 @@ func (e *Env) helperOfAny(v ssa.Value) (*ssa.Call, int, bool) {
 	if !ok {
 		return nil, 0, false
 	}
-	h := c.Call.StaticCallee()
+	h := e.calleeFn(&c.Call)
 	if h == nil || !e.P.Funcs[h] || h.Blocks == nil || c.Call.IsInvoke() {
 		return nil, 0, false
 	}
 	// only helpers of the caller's own package: another package's function is an
 	// interface whose meaning the rules state themselves
-	if c.Parent() == nil || rootFn(c.Parent()).Package() != rootFn(h).Package() {
+	if c.Parent() == nil || pkgOfFn(c.Parent()) != pkgOfFn(h) {
 		return nil, 0, false
 	}
 	if len(h.Blocks) >= 3 {
@@ -1177,11 +1201,67 @@ func (e *Env) ways(lits []ir.NLit, fn func(lits []ir.NLit)) {
 			delete(bind, k)
 		}
 		for _, t := range e.expandTableLits(plain) {
-			undo := ir.SetOverride(bind)
-			fn(t)
-			undo()
+			for _, t2 := range e.expandPhiConst(t, 0) {
+				undo := ir.SetOverride(bind)
+				fn(t2)
+				undo()
+			}
 		}
 	}
+}
+
+// expandPhiConst: a comparison of a φ with a constant (`reason == ""` for a variable
+// that the branches of a switch assign constants to) says which way control came:
+// one alternative per φ edge whose constant satisfies the comparison, with the
+// conditions of that edge in place of the comparison. Edges carrying a computed
+// value keep the comparison.
+func (e *Env) expandPhiConst(lits []ir.NLit, depth int) [][]ir.NLit {
+	if depth > 2 {
+		return [][]ir.NLit{lits}
+	}
+	for i, l := range lits {
+		if l.Kind != "cmp" || (l.Op != token.EQL && l.Op != token.NEQ) {
+			continue
+		}
+		ph, ok := l.X.(*ssa.Phi)
+		if !ok {
+			continue
+		}
+		yc, isC := l.Y.(*ssa.Const)
+		if !isC || yc.Value == nil {
+			continue
+		}
+		nConst := 0
+		for _, ev := range ph.Edges {
+			if c, isEC := ev.(*ssa.Const); isEC && c.Value != nil {
+				nConst++
+			}
+		}
+		if nConst == 0 || e.Facts(ph.Parent()) == nil {
+			continue
+		}
+		rest := append(append([]ir.NLit{}, lits[:i]...), lits[i+1:]...)
+		var out [][]ir.NLit
+		for k, ev := range ph.Edges {
+			edge := e.DCSPhiEdge(ph.Block(), k)
+			if c, isEC := ev.(*ssa.Const); isEC && c.Value != nil {
+				same := constant.Compare(c.Value, token.EQL, yc.Value)
+				if same != (l.Op == token.EQL) {
+					continue
+				}
+				alt := append(append([]ir.NLit{}, rest...), edge...)
+				out = append(out, e.expandPhiConst(alt, depth+1)...)
+				continue
+			}
+			alt := append(append(append([]ir.NLit{}, rest...), l), edge...)
+			out = append(out, alt)
+		}
+		if len(out) == 0 {
+			return [][]ir.NLit{lits} // contradictory: leave as is
+		}
+		return out
+	}
+	return [][]ir.NLit{lits}
 }
 
 // restrictWays is ir.Restrict over every way the conjunction can hold (helpers,
@@ -1245,4 +1325,81 @@ func (e *Env) restrictWays(lits []ir.NLit, subject func(ssa.Value) bool, names m
 		}
 	}
 	return out
+}
+
+// calleeFn: the function a call runs: its static callee, or - for a call through a
+// func-typed parameter that is currently bound (virtual inlining of a higher-order
+// helper: `countFunc(nodes, (*Node).isRunning)`) - the function value it is bound to.
+func (e *Env) calleeFn(c *ssa.CallCommon) *ssa.Function {
+	if f := c.StaticCallee(); f != nil {
+		return f
+	}
+	if c.IsInvoke() {
+		return nil
+	}
+	v := c.Value
+	for d := 0; d < 4; d++ {
+		switch x := v.(type) {
+		case *ssa.Parameter:
+			b := ir.Bound(x)
+			if b == nil {
+				return nil
+			}
+			v = b
+		case *ssa.ChangeType:
+			v = x.X
+		case *ssa.MakeClosure:
+			f, _ := x.Fn.(*ssa.Function)
+			return f
+		case *ssa.Function:
+			// a method expression's thunk: the method itself (same parameters, receiver first)
+			if strings.HasSuffix(x.Name(), "$thunk") && len(x.Blocks) == 1 {
+				for _, in := range x.Blocks[0].Instrs {
+					if ci, ok := in.(*ssa.Call); ok && ci.Call.StaticCallee() != nil && len(ci.Call.Args) == len(x.Params) {
+						return ci.Call.StaticCallee()
+					}
+				}
+			}
+			return x
+		default:
+			return nil
+		}
+	}
+	return nil
+}
+
+// pkgOfFn: the package a function belongs to; for an instance of a generic function,
+// the package of the generic.
+func pkgOfFn(f *ssa.Function) *ssa.Package {
+	f = rootFn(f)
+	if f.Package() != nil {
+		return f.Package()
+	}
+	if o := f.Origin(); o != nil {
+		return rootFn(o).Package()
+	}
+	return nil
+}
+
+// nilable: values of the type can be compared with nil.
+func nilable(t types.Type) bool {
+	switch t.Underlying().(type) {
+	case *types.Slice, *types.Pointer, *types.Map, *types.Interface, *types.Chan, *types.Signature:
+		return true
+	}
+	return false
+}
+
+// cycleNeg: the conjunction says the cycle test answered "no cycle": `!hasCycle()`,
+// or - for a test that hands back a witness - `findCycle() == nil`.
+func cycleNeg(lits []ir.NLit, pred func(ssa.Value) bool) bool {
+	if HasVal(lits, pred, false) {
+		return true
+	}
+	for _, l := range lits {
+		if l.Kind == "cmp" && l.Op == token.EQL && ir.IsNilConst(l.Y) && pred(ir.Resolve(l.X)) {
+			return true
+		}
+	}
+	return false
 }
